@@ -209,7 +209,7 @@ func genInfo(c *explore.C, d *ssa.Doc) {
 	}
 	n := explore.Pick(c, "info.ncomments", 0, 1, 2)
 	for i := 0; i < n; i++ {
-		d.Info.Comments = append(d.Info.Comments, explore.Pick(c, "info.comment", "Comment 1", "a: b", "c;d [e]"))
+		d.Info.Comments = append(d.Info.Comments, explore.Pick(c, "info.comment", "Comment 1", "a: b", "c;d [e]", "; disabled: x", ";; banner ;;", "[x]", "!: y"))
 	}
 }
 
@@ -540,7 +540,7 @@ func genCoreInfo(c *explore.C) Case {
 	}
 	n := explore.Pick(c, "info.ncomments", 0, 1, 2)
 	for i := 0; i < n; i++ {
-		d.Info.Comments = append(d.Info.Comments, []string{"Comment 1", "a: b"}[i])
+		d.Info.Comments = append(d.Info.Comments, explore.Pick(c, "info.comment", "Comment 1", "a: b", ";; banner ;;", "; Title: old"))
 	}
 	d.EventCols = []string{"LM"}
 	d.Events = []ssa.Event{{Start: 100, End: 200, Lines: [][]ssa.Run{{{Text: "x"}}}}}
